@@ -505,6 +505,10 @@ class Controller:
                     return_parameters=result,
                 )
             )
+        elif isinstance(result, hci.HCI_StatusReturnParameters):
+            # Not a synchronous command (asynchronous command without a dedicated
+            # handler, or unknown opcode): the status goes out in a Command Status.
+            self._send_hci_command_status(result.status, command.op_code)
         elif result is not None:
             logger.error("Async command handlers should return None, got %s", result)
 
